@@ -2110,6 +2110,27 @@ thread_local!{
             RefCell::new( SpeechRules::new(RulesFor::Braille, false) );
 }
 
+#[cfg(mathcat_verif)]
+impl SpeechRules {
+    /// Read-only projection of what this rule table currently holds (verification hook).
+    pub fn verif_json(&self) -> String {
+        use crate::verif::{json_str, json_arr};
+        fn files(ft: &FilesAndTimes) -> String {
+            let items = ft.ft.iter().map(|f| {
+                let secs = f.time.duration_since(SystemTime::UNIX_EPOCH).map(|d| d.as_secs()).unwrap_or(0);
+                format!("[{},{}]", json_str(&f.file.to_string_lossy()), secs)
+            }).collect::<Vec<String>>();
+            return json_arr(&items);
+        }
+        let n_rules: usize = self.rules.values().map(|v| v.len()).sum();
+        return format!("{{\"error\":{},\"n_tags\":{},\"n_rules\":{},\"rule_files\":{},\"unicode_short\":{},\"unicode_short_files\":{},\"unicode_full\":{},\"unicode_full_files\":{},\"definitions_files\":{}}}",
+            json_str(&self.error), self.rules.len(), n_rules, files(&self.rule_files),
+            self.unicode_short.borrow().len(), files(&self.unicode_short_files.borrow()),
+            self.unicode_full.borrow().len(), files(&self.unicode_full_files.borrow()),
+            files(&self.definitions_files.borrow()));
+    }
+}
+
 impl SpeechRules {
     pub fn new(name: RulesFor, translate_single_chars_only: bool) -> SpeechRules {
         let globals = if name == RulesFor::Braille {
